@@ -10,7 +10,21 @@ def declare(spec):
     # a node with a finite number of servers has its `servers` list (created in __init__ only then)
     M["has_servers"] = "lambda n: isinf(n.c) or has(n, 'servers')"
 
-    for leaf in ["now", "increment_time", "all_individuals", "reset_individual_attributes",
+    # all customers at the node: the single priority line itself, or a fresh list with the lines' members
+    add(spec, "Node.all_individuals",
+        requires=["len(self.individuals) == self.simulation.number_of_priority_classes", "self.simulation.number_of_priority_classes >= 1"],
+        returns="list:Any", allocates=True, modifies=[],
+        ensures=[
+            ("members-are-customers-of-a-line",
+             "forall_in(result, lambda x: is_obj(x, 'Individual') and exists_int(lambda p: 0 <= p and p < len(self.individuals) "
+             "and x in self.individuals[p], trigger=lambda p: self.individuals[p]))"),
+            ("every-customer-of-a-line-is-a-member",
+             "forall_int(lambda p: implies(0 <= p and p < len(self.individuals), forall_in(self.individuals[p], lambda x: x in result)), "
+             "trigger=lambda p: self.individuals[p])"),
+            ("single-line-is-returned-itself", "implies(self.simulation.number_of_priority_classes == 1, ref_eq(result, self.individuals[0]))"),
+        ])
+
+    for leaf in ["now", "increment_time", "reset_individual_attributes",
                  "give_individual_a_service_time", "give_service_time_after_preemption",
                  "decide_between_simultaneous_individuals", "find_number_of_slotted_services"]:
         add(spec, "Node." + leaf, inline=True)
@@ -67,3 +81,120 @@ def declare(spec):
         requires=["has(self, 'possible_next_events')"],
         returns="tup2:(tup2:val,num),(opt:str)", modifies=[], allocates=True,
         ensures=ens, props=["C02", "C12", "C13"])
+
+    # ------------------------------------------------------------------------------------------------
+    # shared predicates (network-configuration invariants are ASSUMED: established by validify_dictionary /
+    # create_network / Simulation.__init__, never changed afterwards)
+    M["shape"] = ("lambda n: len(n.individuals) == n.simulation.number_of_priority_classes "
+                  "and n.simulation.number_of_priority_classes >= 1")
+    M["net_ok"] = (
+        "lambda n: 1 <= n.id_number and n.id_number <= n.simulation.network.number_of_nodes "
+        "and len(n.simulation.nodes) == n.simulation.network.number_of_nodes + 2 "
+        "and n.id_number in n.simulation.service_times "
+        "and len(n.simulation.network.customer_class_names) > 0 "
+        "and forall_in(n.simulation.network.customer_class_names, lambda c: "
+        "  c in n.simulation.network.customer_classes "
+        "  and c in n.simulation.network.priority_class_mapping "
+        "  and 0 <= n.simulation.network.priority_class_mapping[c] "
+        "  and n.simulation.network.priority_class_mapping[c] < n.simulation.number_of_priority_classes "
+        "  and c in n.simulation.routers "
+        "  and c in n.simulation.service_times[n.id_number] and n.simulation.service_times[n.id_number][c] is not None "
+        "  and len(n.simulation.network.customer_classes[c].reneging_time_distributions) == n.simulation.network.number_of_nodes)")
+    M["cls_ok"] = "lambda n, i: i.customer_class in n.simulation.network.customer_class_names"
+    M["prio_ok"] = "lambda n, i: 0 <= i.priority_class and i.priority_class < len(n.individuals)"
+    M["prev_prio_ok"] = "lambda n, i: 0 <= i.prev_priority_class and i.prev_priority_class < len(n.individuals)"
+    # a customer in service at a node with real servers holds one of the node's servers
+    M["holds_server"] = ("lambda n, i: implies(not isinf(n.c) and not n.slotted, "
+                         "is_obj(i.server, 'Server') and as_obj(i.server, 'Server') in n.servers)")
+
+    for leaf in ["attach_server", "detatch_server", "kill_server", "write_individual_record",
+                 "write_interruption_record", "write_reneging_record", "write_baulking_or_rejection_record",
+                 "get_service_time", "get_reneging_date", "next_node", "next_node_for_rerouting",
+                 "next_node_for_jockeying", "change_priority_queue", "reset_class_change",
+                 "update_next_class_change_while_waiting", "update_next_shift_change_or_slot_time",
+                 "have_event", "sort_interrupted_individuals"]:
+        add(spec, "Node." + leaf, inline=True)
+
+    add(spec, "Node.block_individual",
+        types={"individual": IND, "next_node": "obj:Node"},
+        requires=[("C07:blocked-only-when-destination-is-full", "next_node.number_of_individuals >= next_node.node_capacity")],
+        modifies=["is_blocked@individual", "$seq@next_node.blocked_queue", "len_blocked_queue@next_node",
+                  "unchecked_blockage@self.simulation"] + ["state", "increment", "$seq[TrackerState]", "$seq[TrackerRow]",
+                  "$seq[TrackerCell]", "$seq[TrackerOrder]", "$seq[History]", "$seq[HistEntry]"],
+        allocates=True,
+        ensures=[
+            ("C07:flagged-blocked", "individual.is_blocked"),
+            ("C07:queued-at-the-tail-of-the-destination",
+             "S(next_node.blocked_queue) == append1(old(S(next_node.blocked_queue)), (self.id_number, individual.id_number))"),
+            ("C07:blocked-queue-length", "next_node.len_blocked_queue == old(next_node.len_blocked_queue) + 1"),
+            ("C18:blockage-reported-to-the-deadlock-check", "self.simulation.unchecked_blockage"),
+        ],
+        expect_calls={"change_state_block": 1, "action_at_blockage": 1},
+        props=["C07", "C17", "C18"])
+
+    TRK = ["state", "increment", "$seq[TrackerState]", "$seq[TrackerRow]", "$seq[TrackerCell]", "$seq[TrackerOrder]",
+           "$seq[History]", "$seq[HistEntry]"]
+    IND_FIELDS = ["arrival_date", "service_start_date", "service_time", "service_end_date", "exit_date", "server",
+                  "reneging_date", "class_change_date", "next_class", "time_left", "original_service_time",
+                  "original_service_start_date", "interrupted", "is_blocked", "destination", "node", "original_class",
+                  "queue_size_at_arrival", "queue_size_at_departure", "with_server", "date_last_update"]
+    SRV_FIELDS = ["cust", "busy", "next_end_service_date", "busy_time", "total_time", "offduty", "shift_end"]
+
+    # ---- class change after service (C09) --------------------------------------------------------------
+    add(spec, "Node.change_customer_class",
+        types={"individual": IND},
+        requires=["net_ok(self)", "cls_ok(self, individual)",
+                  "implies(self.class_change, individual.customer_class in self.class_change and "
+                  "forall_in(self.simulation.network.customer_class_names, lambda b: b in self.class_change[individual.customer_class] "
+                  "and is_fin(self.class_change[individual.customer_class][b]) and self.class_change[individual.customer_class][b] >= 0))"],
+        call_assumes={"random_choice": ["sum_r(probs) == 1"]},
+        modifies=["previous_class@individual", "customer_class@individual", "prev_priority_class@individual",
+                  "priority_class@individual"], allocates=True,
+        ensures=[
+            ("still-a-class-of-the-network", "cls_ok(self, individual)"),
+            ("C09:priority-follows-class",
+             "implies(self.class_change, individual.priority_class == self.simulation.network.priority_class_mapping[individual.customer_class])"),
+            ("C09:zero-probability-class-change-never-happens",
+             "implies(self.class_change, self.class_change[old(individual.customer_class)][individual.customer_class] > 0)"),
+            ("C17:previous-class-remembered", "implies(self.class_change, individual.previous_class == old(individual.customer_class) "
+                                               "and individual.prev_priority_class == old(individual.priority_class))"),
+            ("no-matrix-no-change", "implies(not self.class_change, individual.customer_class == old(individual.customer_class) "
+                                    "and individual.priority_class == old(individual.priority_class) "
+                                    "and individual.prev_priority_class == old(individual.prev_priority_class))"),
+        ],
+        props=["C09", "C17"])
+
+    # ---- predicates about one customer -------------------------------------------------------------------
+    # a customer that may be (re)started: never served on this visit, or pre-empted with its bookkeeping in place
+    M["restartable"] = ("lambda i: i.service_time is False or "
+                        "((i.service_time == 'resample' or i.service_time == 'restart' or i.service_time == 'resume') and has(i, 'time_left') "
+                        " and has(i, 'original_service_time') and is_fin(i.time_left) and is_fin(i.original_service_time))")
+    M["waiting_ok"] = ("lambda n, i: cls_ok(n, i) and restartable(i) and "
+                       "implies(n.dynamic_classes, has(i, 'class_change_date'))")
+    M["all_waiting_ok"] = "lambda n: forall_in(n.individuals, lambda q: forall_in(q, lambda i: implies(not i.server, waiting_ok(n, i))))"
+    M["dyn_ok"] = "lambda n: implies(n.dynamic_classes, has(n, 'next_class_change_ind'))"
+
+    AT_SELF = "@lambda o: ref_eq(loc(o), self)"
+    BSIP_MOD = ([f + AT_SELF for f in IND_FIELDS] + [f + "@S(self.servers)" for f in SRV_FIELDS] +
+                ["number_in_service@self", "next_class_change_date@self", "next_class_change_ind@self"])
+
+    add(spec, "Node.find_next_class_change",
+        requires=["shape(self)",
+                  "forall_in(self.individuals, lambda q: forall_in(q, lambda i: has(i, 'class_change_date')))"],
+        modifies=["next_class_change_date@self", "next_class_change_ind@self"], allocates=True,
+        loop_invariants={0: [
+            "has(self, 'next_class_change_ind')", "is_number(self.next_class_change_date)",
+            "forall_int(lambda j: implies(0 <= j and j < _i and not _it[j].server, self.next_class_change_date <= _it[j].class_change_date), trigger=lambda j: _it[j])",
+            "implies(self.next_class_change_ind is not None, self.next_class_change_ind in _it and not self.next_class_change_ind.server "
+            "and self.next_class_change_ind.class_change_date == self.next_class_change_date)",
+            "implies(self.next_class_change_ind is None, isinf(self.next_class_change_date))",
+        ]},
+        ensures=[
+            ("C14:both-attributes-exist", "has(self, 'next_class_change_ind')"),
+            ("C09:earliest-waiting-class-change",
+             "forall_in(self.individuals, lambda q: forall_in(q, lambda i: implies(not i.server, self.next_class_change_date <= i.class_change_date)))"),
+            ("C09:attained", "implies(self.next_class_change_ind is not None, not self.next_class_change_ind.server "
+                             "and self.next_class_change_ind.class_change_date == self.next_class_change_date)"),
+            ("none-iff-inf", "implies(self.next_class_change_ind is None, isinf(self.next_class_change_date))"),
+        ],
+        props=["C09", "C14"])
